@@ -167,7 +167,7 @@ Definition op_4 (p : pool) (nid : nat) (args : list sx) : step_res :=
     | Some o =>
       match o_kind o with
       | KString => store p (Z.to_nat i) o true (clear_fmt (o_val o))
-      | KStr => let '(a, nid') := parse (base (o_val o)) nid in store (with_id p nid') (Z.to_nat i) o true a
+      | KStr => store p (Z.to_nat i) o true (clear_fmt (o_val o))    (* as repaired (F44): a cleared copy, not a re-parse of the text *)
       end
     end
   | _ => Err TypeError
@@ -467,7 +467,7 @@ Definition op_27 (p : pool) (nid : nat) (args : list sx) : step_res :=
       OK (p, [], sx_of_bool
             match o_kind a, o_kind b with
             | KString, KString => astr_eqb (o_val a) (o_val b)
-            | KStr, KStr => str_eqb (o_payload a) (o_payload b)
+            | KStr, KStr => astr_eqb (o_val a) (o_val b)      (* as repaired (F52): text and settings, like AnsiString *)
             | KString, KStr => false          (* AnsiString.__eq__(AnsiStr): not an AnsiString *)
             | KStr, KString => false end)
     | _, _ => Err TypeError
